@@ -29,6 +29,7 @@ type idxProver struct {
 	post      map[*ssa.Function]strPost
 	pre       map[*ssa.Parameter]int // required minLen of string/slice parameters
 	depth     int
+	work      int // upperRel calls made for the current top-level query (budget: the recursion through facts and phis is exponential)
 }
 
 func newIdxProver(w *World) *idxProver {
@@ -522,7 +523,11 @@ func (p *idxProver) lowerBound(v ssa.Value, at ssa.Instruction) (int64, bool) {
 
 // upperRel: v <= len(S) + c for the returned (S, c).
 func (p *idxProver) upperRel(v ssa.Value, at ssa.Instruction) (ssa.Value, int64, bool) {
-	if p.depth > 12 {
+	if p.depth == 0 {
+		p.work = 0
+	}
+	p.work++
+	if p.depth > 12 || p.work > 20000 {
 		return nil, 0, false
 	}
 	p.depth++
